@@ -48,7 +48,7 @@ def run_unit(unit, ctx):
     i = unit["i"]
     has_ctl, has_cal = bool(i & 1), bool(i & 2)
     nsens = (i // 4) % 4
-    md = [0.01, 0.1, 0.5][(i // 16) % 3] if ctx["tier"] == "thorough" else rng.choice([0.01, 0.1, 0.5])
+    md = rng.choice([0.01, 0.1, 0.5, 0.0123456789, 1.0 / 3.0, 0.25000000000000006, 2.5e-7, 7.7e-5])
     defn = gen.contractive_program(rng, n_state=(1, 3), n_control=(1, 2) if has_ctl else (0, 0),
                                    n_calib=(1, 2) if has_cal else (0, 0), n_sensor=(nsens, nsens),
                                    n_reading=(1, 3), depth=1, n_shared=(0, 1))
@@ -59,9 +59,9 @@ def run_unit(unit, ctx):
     R.fps_all.append(fp)
     w = dict(defn=defn, max_dt=md, compiler=compiler, sensors=nsens)
     b = build.Built(defn)
-    eb = cppdrv.EkfBinary(defn, b, {"max_dt_sec": md, "innovation_filtering": rng.choice([None, 5.0]),
-                                    "common_subexpression_elimination": rng.random() < 0.5},
-                          compiler=compiler, managed=True)
+    cfg = {"max_dt_sec": md, "innovation_filtering": rng.choice([None, 5.0, 3.14159265358979, 1e-7]),
+           "common_subexpression_elimination": rng.random() < 0.5}
+    eb = cppdrv.EkfBinary(defn, b, cfg, compiler=compiler, managed=True)
     try:
         R.evals += 1
         if not eb.ok:
@@ -73,12 +73,14 @@ def run_unit(unit, ctx):
         x0 = {s: rng.gauss(0, 1) for s in names}
         P0 = gen.spd(rng, len(names), rng.choice(["rand", "ident", "diag"]))
         t0 = rng.choice([0.0, 5.0, -2.0])
-        cmds = [eb.cal_cmd(defn["calibration_map"]), eb.mfi_cmd(t0, x0, P0)]
+        cmds = ["CFG", eb.cal_cmd(defn["calibration_map"]), eb.mfi_cmd(t0, x0, P0)]
         ticks = []
         held_t = t0
         multi = False
         for ti in range(rng.randint(4, 8)):
             out = held_t + rng.uniform(-1.5, 3) * md * rng.choice([1, 1, 4])
+            if md < 1e-6:
+                out = held_t + rng.uniform(-1.5, 3) * md * 2  # keep the number of steps small
             u = {c: rng.gauss(0, 1) for c in eb.control}
             if not eb.sensors or rng.random() < 0.25:
                 rds = None if rng.random() < 0.6 else []
@@ -101,7 +103,10 @@ def run_unit(unit, ctx):
             R.add([K.V(key, f"managed driver rc={res['rc']}: {res['out'][-300:]} {res['err'][-1500:]}", **w)])
             return R.out()
         R.stats.inc("sanitizer_runs_clean")
-        for ti, ((h_t, out, rds), toks) in enumerate(zip(ticks, res["lines"][2:-1])):
+        for key, txt in eb.check_cfg(res["lines"][0], cfg):
+            R.add([K.V(key, txt, **w)])
+        R.stats.inc("generated_constants_checked")
+        for ti, ((h_t, out, rds), toks) in enumerate(zip(ticks, res["lines"][3:-1])):
             eq12, eq13, bad, log, x, P = eb.parse_mt(toks)
             R.evals += 1
             R.stats.inc("ticks_checked")
@@ -138,7 +143,7 @@ def run_unit(unit, ctx):
         if not R.samples:
             R.samples.append({"definition": K.brief_defn(defn), "max_dt": md, "compiler": compiler,
                               "ticks": [(a, b_, None if r is None else [(ts, sn) for ts, sn, _ in r]) for a, b_, r in ticks[:4]],
-                              "first_log": [("M" if e is None else e) for e in eb.parse_mt(res["lines"][2])[3]][:10]})
+                              "first_log": [("M" if e is None else e) for e in eb.parse_mt(res["lines"][3])[3]][:10]})
     finally:
         eb.close()
     return R.out()
